@@ -98,6 +98,18 @@ pub fn c15(h: &mut H) {
                 u2.sort();
                 reject(h, "other_hidden_set", &pk.pok, &ck, &k.pk, &bases, &pk.revealed, &u2, n);
             }
+            // hidden sets that drop trailing / leading members of U, or add one (same revealed list)
+            if !hidden.is_empty() {
+                reject(h, "hidden_drop_last", &pk.pok, &ck, &k.pk, &bases, &pk.revealed, &hidden[..hidden.len() - 1].to_vec(), n);
+                reject(h, "hidden_drop_first", &pk.pok, &ck, &k.pk, &bases, &pk.revealed, &hidden[1..].to_vec(), n);
+                reject(h, "hidden_none", &pk.pok, &ck, &k.pk, &bases, &pk.revealed, &[], n);
+            }
+            if hidden.len() < n {
+                let mut u3 = hidden.clone();
+                u3.push((0..n).rev().find(|i| !hidden.contains(i)).unwrap());
+                u3.sort();
+                reject(h, "hidden_add_one", &pk.pok, &ck, &k.pk, &bases, &pk.revealed, &u3, n);
+            }
             // attribute count
             if n < nmax {
                 let mut r = pk.revealed.clone();
@@ -119,8 +131,8 @@ pub fn c15(h: &mut H) {
                 if leaf_budget <= 0 { break; }
                 let (path, old) = lv[li].clone();
                 if path.ends_with(".randomness") { continue; }
-                for edit in 0..3 {
-                    if !h.thorough && edit != (li % 3) { continue; }
+                for edit in 0..5 {
+                    if !h.thorough && edit != (li % 5) { continue; }
                     if edit == 2 && old == 0 { continue; }
                     leaf_budget -= 1;
                     let mut z = pk.pok.clone();
@@ -128,12 +140,14 @@ pub fn c15(h: &mut H) {
                     let f: Box<dyn Fn(&Integer) -> Integer> = match edit {
                         0 => Box::new(|x| Integer::from(x + 1u32)),
                         1 => Box::new(|x| Integer::from(x - 1u32)),
-                        _ => Box::new(|_| Integer::from(0)),
+                        2 => Box::new(|_| Integer::from(0)),
+                        3 => Box::new(|x| Integer::from(x + (Integer::from(1) << 128))),
+                        _ => Box::new(|x| Integer::from(x + (Integer::from(1) << 256))),
                     };
                     map_leaf(&mut z, &mut cnt, li, &*f);
                     h.stat("C15.leaf_edit");
                     let v = pokverify(h, &z, &ck, &k.pk, &bases, &pk.revealed, &hidden, n);
-                    h.expect(!v.is_true(), "C15.leaf_edit", &format!("proof_verify accepted a proof with field {} altered ({})", path, ["+1", "-1", "zero"][edit]), &[h.last()]);
+                    h.expect(!v.is_true(), "C15.leaf_edit", &format!("proof_verify accepted a proof with field {} altered ({})", path, ["+1", "-1", "zero", "+2^128", "+2^256"][edit]), &[h.last()]);
                 }
             }
             // swap two sibling responses
